@@ -14,10 +14,26 @@ BASELINE = ("cd /repo && env -u PERSIM_VERIF /venv/bin/python -m pytest -ra -q -
             "--timeout=900 --continue-on-collection-errors")
 
 TECH = {
-    "C01": "exhaustive enumeration of all small lattice diagram pairs x all rank orders of the matching routine's hash-ordered sets (schedule exploration) vs brute-force matching oracle",
+    "C01": "exhaustive enumeration of all small lattice diagram pairs x ALL rank orders of the matching routine's hash-ordered sets (schedule exploration, explorer C) x real hash seeds, vs brute-force matching oracle",
     "C02": "exhaustive enumeration of all small lattice diagram pairs (+affine/permutation/container/inf variants) vs brute-force min-sum matching oracle",
-    "C06": "exhaustive enumeration of diagram pairs x all rank orders; every returned matching checked as a certificate",
+    "C03": "exhaustive enumeration of all multisets of <= n lattice bars (all row orders, affine variants, hom_deg) vs exact rational k-th-largest-tent oracle; hook-based attribution of the known shortcut defect",
+    "C04": "exhaustive configuration product (regions x pixels x kernels x weights x skew) x point cover vs independent quadrature oracle per pixel",
+    "C05": "exhaustive enumeration of all pairs of connected labelled graphs x exploration of ALL answers of the intercepted NumPy random draws (prefix-replay, deviation-bounded, state-key pruning) vs exact mGH by enumeration of all maps",
+    "C06": "exhaustive enumeration of diagram pairs x ALL rank orders; every returned matching checked as a certificate",
     "C07": "exhaustive pairs and triples over a replicated/two-cluster family (up to hundreds of points) with an exact replication oracle",
+    "C08": "exhaustive enumeration of quarter-lattice bar multisets x grid/num_steps configurations vs k-th-largest-tent oracle at every node",
+    "C09": "exhaustive operand pairs + explicit-state BFS over operation histories on shared real landscape objects vs exact rational PL reference pool",
+    "C10": "exhaustive enumeration of operands, all pairwise differences/combinations and p values vs exact rational PL integration; all diagram pairs for the stability bound",
+    "C11": "exhaustive relations over configuration x diagram pairs + exploration of ALL completion orders of joblib batches under a controlled backend (explorer C)",
+    "C12": "explicit-state BFS over configuration histories (constructor product x setters x fits) of real PersistenceImager objects with state de-duplication and differential continuation; invariant + transition post-conditions on every state",
+    "C13": "exhaustive configuration product (means x variances x correlations around every branch threshold) x full evaluation grid vs Plackett-integral reference and CDF axioms",
+    "C14": "exhaustive enumeration of lattice diagram pairs/triples x all row permutations x sigma vs closed-form kernel oracle",
+    "C15": "exhaustive enumeration of signed-lattice diagram pairs/triples x M vs defining-formula oracle and metric laws",
+    "C16": "exhaustive enumeration of barcodes x flag combinations x infinite bars x containers vs Shannon-entropy oracle",
+    "C17": "exhaustive enumeration of ALL labelled graphs <= 4 vertices (connected or not) x container/symmetry forms x collections, RNG answers owned by the explorer, vs exact mGH on largest components",
+    "C18": "explicit-state BFS over fit/transform/fit_transform histories on real estimators with a differential oracle (fresh estimator replaying the history)",
+    "C19": "exhaustive thunk x argument-form matrix + ALL call sequences f;g;f (f;g;h;f) on shared arguments with byte-level snapshots and a fingerprint of every function default",
+    "C20": "exhaustive option product x diagram cover, matchings returned under ALL rank orders; artist inspection oracle",
 }
 DEFAULT_TECH = "bounded exhaustive exploration of the real code against a reference model"
 
